@@ -99,6 +99,17 @@ func Build(c *engine.Ctx, key string, words [][]byte) (d *dawg.Dawg, err error, 
 	return
 }
 
+// BuildSlowOK is Build for word lists so large that the construction itself (a linear scan of the register per finished
+// node) comes close to the CPU budget of a guarded call: running over the budget is recorded as slow, not judged.
+func BuildSlowOK(c *engine.Ctx, key string, words [][]byte) (d *dawg.Dawg, err error, pi *engine.PanicInfo) {
+	in := make([][]byte, len(words))
+	for i, w := range words {
+		in[i] = append([]byte{}, w...)
+	}
+	pi = c.CallSlowOK(key, func() { d, err = dawg.New(in) })
+	return
+}
+
 // Nodes reads the node dump through the verif-tagged accessor.
 func Nodes(c *engine.Ctx, key string, d *dawg.Dawg) (nodes []dawg.VerifNode, pi *engine.PanicInfo) {
 	pi = c.Call(key+"|VerifNodes", func() { nodes = d.VerifNodes() })
